@@ -304,6 +304,16 @@ def gen_stash_case(rng, P):
         specs.append('%d:1' % (g.newproc(body) if body else 0))
     g.cbs = ['cb 1 evt 0 ' + ' '.join(specs), 'cb 1 evt 2 ' + ' '.join(reversed(specs))]
     prog = ['ctxreg 1', 'reg 0', 'reg 1', 'start 0', 'start 1', 'sub 1 1 %d 0 7' % rng.choice([0, 1, 2, 3])]
+    if rng.random() < 0.35:
+        # directed: k deliveries are stashed, then a partial unstash whose own handler invocation unstashes again (nested)
+        k = rng.randint(2, 4)
+        st = g.newproc(['stash 1 0']); nest = g.newproc(['unstash 1 %d' % rng.randint(1, 3)] + (['stash 1 0'] if rng.random() < 0.3 else []))
+        g.cbs = ['cb 1 evt 0 ' + ' '.join(['%d:1' % st] * k + ['%d:1' % nest] + ['0:1'] * 3)]
+        prog = prog[:5] + ['tell 0 1 %d 0' % g.newdata() + '' for _ in range(k)]
+        prog = [x for p in prog for x in ([p, 'dispatch'] if p.startswith('tell') else [p])]
+        prog += ['unstash 1 %d' % rng.randint(1, k), 'unstash 1 9', 'dispatch', 'quit 1', 'dispatch', 'dispatch', 'live', 'dereg 0', 'dereg 1', 'ctxdereg', 'live']
+        g.procs[1] = prog
+        return 'core', g.lines()
     for _ in range(rng.randint(3, 12)):
         x = rng.random()
         if x < 0.45: prog.append('tell 0 1 %d %d' % (g.newdata(), 1 if rng.random() < 0.3 else 0))
@@ -314,3 +324,74 @@ def gen_stash_case(rng, P):
     prog += ['unstash 1 9', 'dispatch', 'quit 1', 'dispatch', 'dispatch', 'evtunref 0', 'evtunref 0', 'live', 'dereg 0', 'dereg 1', 'ctxdereg', 'live']
     g.procs[1] = prog
     return 'core', g.lines()
+
+
+def gen_burst_case(rng, P):
+    """one mailbox is filled beyond its capacity, then tell / publish / broadcast go on: the overflowing copies are dropped, nobody else is affected"""
+    nm = rng.randint(3, 5)
+    g = _base(rng, P, nm)
+    victim = rng.randrange(1, nm)
+    prog = ['ctxreg 1'] + ['reg %d' % m for m in range(nm)] + ['start %d' % m for m in range(nm)]
+    for m in range(1, nm):
+        if rng.random() < 0.7: prog.append('sub %d 1 0 0 %d' % (m, 10 + m))
+    prog += ['tellmany 0 %d %d %d' % (victim, g.newdata(), 512 + rng.choice([0, 1, 7, 300])), 'live']
+    for _ in range(rng.randint(1, 4)):
+        prog.append(rng.choice(['broadcast 0 %d %d' % (g.newdata(), rng.randint(0, 1)), 'publish 0 1 %d %d' % (g.newdata(), rng.randint(0, 1)),
+                                'tell 0 %d %d %d' % (rng.randrange(1, nm), g.newdata(), rng.randint(0, 1))]))
+    prog += ['dispatch', 'dispatch', 'dispatch', 'live', rng.choice(['stop %d' % victim, 'pause %d' % victim, 'dereg %d' % victim, 'dispatch']), 'dispatch', 'live',
+             'quit 1', 'dispatch', 'dispatch'] + ['dereg %d' % m for m in range(nm)] + ['ctxdereg', 'live']
+    g.procs[1] = prog
+    return 'core', ['pipecap 512'] + g.lines()     # one page: the smallest pipe the kernel offers
+
+def gen_become_case(rng, P):
+    """handler stack: become / unbecome from outside and from inside the handlers themselves (same or other handler), deliveries, stop/start"""
+    g = _base(rng, P, 2)
+    cbs = []
+    for h in (0, 1, 2, 3):
+        specs = []
+        for _ in range(rng.randint(2, 7)):
+            x = rng.random(); body = []
+            if x < 0.35: body = ['become 1 %d' % rng.choice([h or 1, h or 1, rng.randint(1, 3)])]
+            elif x < 0.55: body = ['unbecome 1']
+            elif x < 0.62: body = ['become 1 %d' % rng.randint(1, 3), 'unbecome 1']
+            elif x < 0.68: body = [rng.choice(['stop 1', 'pause 1', 'stash 1 0', 'unstash 1 2'])]
+            specs.append('%d:1' % (g.newproc(body) if body else 0))
+        cbs.append('cb 1 evt %d %s' % (h, ' '.join(specs)))
+    g.cbs = cbs
+    prog = ['ctxreg 1', 'reg 0', 'reg 1', 'start 0', 'start 1']
+    for _ in range(rng.randint(4, 14)):
+        x = rng.random()
+        if x < 0.55: prog += ['tell 0 1 %d 0' % g.newdata(), 'dispatch']
+        elif x < 0.7: prog.append('become 1 %d' % rng.randint(1, 3))
+        elif x < 0.85: prog.append('unbecome 1')
+        elif x < 0.92: prog += [rng.choice(['stop 1', 'pause 1']), rng.choice(['start 1', 'resume 1'])]
+        else: prog.append('dispatch')
+    prog += ['unbecome 1', 'unbecome 1', 'tell 0 1 %d 0' % g.newdata(), 'dispatch', 'quit 1', 'dispatch', 'dispatch', 'live', 'dereg 0', 'dereg 1', 'ctxdereg', 'live']
+    g.procs[1] = prog
+    return 'core', g.lines()
+
+def gen_lifetime_case(rng, P):
+    """self-deregistration / stop from inside the handler of a delivery or of a top-level unstash, single user reference, retained events"""
+    if rng.random() < 0.4:
+        # directed: k deliveries are stashed; a TOP-LEVEL unstash replays them to a handler that gets rid of its own module
+        g = _base(rng, P, 2, hooks=rng.random() < 0.5)
+        k = rng.randint(1, 3)
+        st = g.newproc(['stash 1 0'])
+        bye = g.newproc(rng.choice([['dereg 1'], ['dereg 1', 'state 1'], ['stop 1', 'dereg 1'], ['unref 1'], ['dereg 1', 'evtref 0']]))
+        g.cbs = ['cb 1 evt 0 ' + ' '.join(['%d:1' % st] * k + ['%d:1' % bye] + ['0:1'] * 2)]
+        prog = ['ctxreg 1', 'reg 0', 'reg 1', 'start 0', 'start 1']
+        for _ in range(k): prog += ['tell 0 1 %d %d' % (g.newdata(), rng.randint(0, 1)), 'dispatch']
+        prog += ['unstash 1 %d' % rng.randint(1, k + 1), 'live', 'state 1', 'dispatch', 'evtunref 0', 'quit 1', 'dispatch', 'dispatch', 'live', 'dereg 0', 'dereg 1', 'ctxdereg', 'live']
+        g.procs[1] = prog
+        return 'core', g.lines()
+    h, lines = gen_stash_case(rng, P)
+    out = []
+    for l in lines:
+        t = l.split()
+        if t and t[0] in ('become', 'unbecome', 'evtref') and rng.random() < 0.6:
+            l = rng.choice(['dereg 1', 'dereg 1', 'stop 1', 'unref 1', 'evtref 0'])
+        out.append(l)
+    return h, out
+
+def gen_mixed_case(rng, P):
+    return rng.choice([gen_sources_case, gen_stash_case, gen_lifetime_case, gen_lifetime_case, gen_batch_case, gen_become_case, gen_burst_case])(rng, P)
